@@ -832,7 +832,14 @@ func (w *Waiter) Wait(site string) {
 	}
 	s.mu.Lock()
 	if s.teardown {
+		// (like a scheduling point passed after the run is over, see parkEligible: a task that keeps
+		// waiting for things that will not happen anymore - a loop around a wait - is spinning)
+		w.t.tdYields++
+		spin := w.t.tdYields > teardownYieldCap
 		s.mu.Unlock()
+		if spin {
+			runtime.Goexit()
+		}
 		return
 	}
 	t := w.t
